@@ -41,6 +41,7 @@ CORPORA = {
     "rsdp": dict(model="MC_Rsdp", quick={}, thorough={}, profiles=DEV_REL, place="both"),
     "sized": dict(model="MC_Sized", quick=dict(SizedSpread=9), thorough=dict(SizedSpread=17), profiles=DEV_REL, place="both"),
     "adv": dict(model="MC_Adv", quick={}, thorough={}, profiles=DEV_REL, place="both"),
+    "round8": dict(model="MC_Round8", quick={}, thorough={}, profiles=DEV_REL, place="end"),
     "load": dict(model="MC_Load", quick=dict(MaxT=72), thorough=dict(MaxT=160), profiles=DEV_REL, place="both"),
     "walk": dict(model="MC_Walk", quick=dict(MaxT=32), thorough=dict(MaxT=40), profiles=DEV_REL, place="both"),
 }
@@ -82,8 +83,10 @@ CHECKS = {
                 rule="all lazily chosen header-tag sequences (4 type/flag pairs, sizes 0..remaining+9), every header-tag kind at every "
                      "declared size 0..40, conformant tags; every call checked for crash/hang and extents inside the declared header"),
     "C10": dict(corpora=["hload", "cks"],
+                sweeps=[("checksum", None, 1, 1)],
                 rule="all (length 0..MaxLen, magic right/one-bit-off/zero, checksum right/+1/-1/zero, both architectures) + null; "
-                     "calc_checksum on 54 boundary (magic, arch, length) triples judged on 16-bit limbs"),
+                     "calc_checksum on 54 boundary (magic, arch, length) triples judged on 16-bit limbs; all 2^32 lengths x both architectures "
+                     "(Multiboot2 magic; two more magics on a sub-grid) swept natively against the congruence the property states"),
     "C11": dict(corpora=["hfields", "hgetters", "hwalk"],
                 rule="every header-tag kind conformant x 2 fills x 2 positions x 2 architectures, every accessor; all tag sequences "
                      "<= MaxTags over 4 kinds; all lazily chosen walks"),
@@ -111,9 +114,11 @@ CHECKS = {
     "C03": dict(corpora=["walk", "load"],
                 rule="cases = all lazily chosen header sequences (type in {0,3,99}, size 0..remaining+9) of regions up to MaxT; "
                      "each drained by a tag iterator, a mid-walk clone and the module iterator"),
-    "C14": dict(corpora=["refslice"],
+    "C14": dict(corpora=["refslice", "round8"],
+                sweeps=[("round8", None, 1, 1)],
                 rule="cases = all (header kind, slice length, start alignment, declared size) in bounds; "
-                     "non-trivial = distinct cases whose specified outcome is not ShorterThanHeader"),
+                     "non-trivial = distinct cases whose specified outcome is not ShorterThanHeader; rounding function: 250 values around "
+                     "multiples of 8 and powers of two judged by TLC, all 2^32 arguments swept natively against the law the property states"),
 }
 
 DEFAULT_TECHNIQUE = "TLA+ specification + TLC model checking + TLC trace validation of replayed cases"
